@@ -69,6 +69,10 @@ def is_deliberate(e):
         return True
     if isinstance(e, ValueError) and "density" in str(e).lower():
         return True
+    if isinstance(e, AssertionError) and "is necessary in" in str(e) and "but not given" in str(e):
+        # "argument X is necessary ... but not given": the harnesses supply every free variable of an expression (or fix
+        # it by a call), so this message means that the library LOST a binding -- not a refusal
+        return False
     if isinstance(e, AssertionError) and len(str(e)) > 15:
         return True
     if isinstance(e, RuntimeError) and "valid point for the filter" in str(e):
